@@ -52,6 +52,7 @@ type sgProof struct {
 	mock     []byte
 	variants []*sgVariant
 	tag      string
+	shared   bool // structurally identical sub-trees are one proof.Predicate object (not expressible in the model)
 }
 
 type sgRun struct {
@@ -88,9 +89,13 @@ func (e *sgEnv) smap(sval []*big.Int) map[string]kyber.Scalar {
 
 // prove runs the real HashProve under observation.
 func (t *sgRun) prove(e *sgEnv, in *sgInst, choice []int, name, tag string) *sgProof {
-	p := &sgProof{env: e, inst: in, choice: choice, name: name, tag: tag}
+	p := &sgProof{env: e, inst: in, choice: choice, name: name, tag: tag, shared: tag == "shared-object"}
 	cm := map[proof.Predicate]int{}
-	pred := in.tree.build(choice, true, cm)
+	var memo map[string]proof.Predicate
+	if p.shared {
+		memo = map[string]proof.Predicate{}
+	}
+	pred := in.tree.buildShared(choice, true, cm, memo)
 	prover, spy := sgSpyProver(e, pred.Prover(e.suite, e.smap(in.sval), e.pmap(in.pval), cm))
 	p.spy = spy
 	res := kc.Recover(func() string {
@@ -118,7 +123,11 @@ func (t *sgRun) prove(e *sgEnv, in *sgInst, choice []int, name, tag string) *sgP
 func (t *sgRun) verify(p *sgProof, kind string, tree *sgNode, pval []*big.Int, name string, pr []byte, expect string) *sgVariant {
 	e := p.env
 	v := &sgVariant{kind: kind, tree: tree, pval: pval, name: name, realProof: pr, expect: expect, modelable: true}
-	pred := tree.build(nil, false, nil)
+	var memo map[string]proof.Predicate
+	if p.shared {
+		memo = map[string]proof.Predicate{}
+	}
+	pred := tree.buildShared(nil, false, nil, memo)
 	ver, spy := sgSpyVerifier(e, pred.Verifier(e.suite, e.pmap(pval)))
 	v.verdict = kc.Recover(func() string {
 		if err := proof.HashVerify(e.suite, name, ver, pr); err != nil {
@@ -134,7 +143,11 @@ func (t *sgRun) verify(p *sgProof, kind string, tree *sgNode, pval []*big.Int, n
 	// the property's own predicate, on the real code
 	if expect != "" && v.verdict != expect {
 		what := fmt.Sprintf("%s: %s: verifier says %s, property says %s; predicate %s, claimed branch %v", e.name, kind, v.verdict, expect, tree, p.choice)
-		t.c.Violation("C14:"+kind+":"+v.verdict, what, t.replay(p, v))
+		key := "C14:" + kind + ":" + v.verdict
+		if p.shared {
+			key = "C14:shared-predicate-object:" + kind + ":" + v.verdict
+		}
+		t.c.Violation(key, what, t.replay(p, v))
 	}
 	return v
 }
@@ -509,6 +522,12 @@ func (t *sgRun) settle() {
 		o := outs[i]
 		c.Eval(1)
 		c.CountKind(p.env.name + ":prove-" + p.tag)
+		if p.shared {
+			// object identity is not a notion of the model (trees are values): this family is judged by the
+			// property predicate on the real code only
+			p.mock = nil
+			continue
+		}
 		if p.proveErr != "" {
 			if stripClass(o) != "err" {
 				c.Disagree(p.line, p.proveErr, o, "prover error")
@@ -634,6 +653,24 @@ func runC14(c *kc.Ctx) {
 				p := t.prove(e, in, nil, name, "illformed")
 				_ = p
 				continue
+			}
+			// the same statement, with structurally identical sub-trees built as one shared Predicate object
+			if i%4 == 1 {
+				d := in.clone()
+				if d.tree.kind == sgOr && len(d.tree.subs) >= 1 {
+					j := r.Intn(len(d.tree.subs))
+					if d.tree.subs[j].kind != sgOr {
+						d.tree.subs = append(d.tree.subs, d.tree.subs[j].clone())
+					}
+				} else if d.tree.kind == sgAnd {
+					d.tree.subs = append(d.tree.subs, d.tree.subs[r.Intn(len(d.tree.subs))].clone())
+				}
+				for _, ch := range d.tree.choices() {
+					p := t.prove(e, d, ch, name, "shared-object")
+					if p.proveErr == "" {
+						t.variants(p, r, false)
+					}
+				}
 			}
 			// out-of-range / missing branch choice
 			if in.tree.kind == sgOr && i%7 == 0 {
